@@ -16,7 +16,7 @@ Require Import String.
 Require Import Arith Lia List Bool ZArith QArith Qcanon Permutation.
 From TK Require Import Mat_Sums Mat_Core Mat_Qc Mat_EigSelect EigSelect Mat_EigSelect_Tie
                        Lle_Model Lle_Spec Lle_Proof_Triplets Lle_Proof_Lle Lle_Proof_Ltsa
-                       Lle_Proof_Hlle Lle_Proof_Embed Lle_Proof_Gs Lle_Proof_GsQc Lle_Proof_KyFan.
+                       Lle_Proof_Hlle Lle_Proof_Embed Lle_Proof_Gs Lle_Proof_GsQc Lle_Proof_KyFan Lle_Proof_Flat Lle_Proof_Run.
 Import ListNotations.
 Local Open Scope nat_scope.
 
@@ -265,6 +265,45 @@ Proof.
   - apply vlist_eqb_ok. vm_compute. reflexivity.
 Qed.
 
+(* the HLLE routine as a whole (sqrt-free executable form): Ok T -> T assembles the property's matrix *)
+Theorem C08_hlle_model_correct :
+  forall (F : Type) (Fo : FieldOps F) (Ff : IsField F) (fz : F -> bool) (sh : bool) (N k d : nat)
+         (nbr : nat -> nat -> nat) (V prev : nat -> mat F) (T : list (@triplet F)),
+    hlle_model_sf fz sh N k d nbr V prev = Ok T ->
+    (forall r c, from_triplets T r c =
+                 hlle_M_spec N k nbr (fun i => hlle_local_sf sh k d (prev i) (V i)) r c) /\
+    (forall i, i < N -> gs_degenerate fz (hlle_gs_sf sh k d (prev i) (V i)) = false).
+Proof. exact @hlle_model_correct. Qed.
+Print Assumptions C08_hlle_model_correct.
+
+(* index-in-range obligations: on a well-formed neighbour table (N lists, each with at least
+   k = |first list| entries, every used entry < N) and d <= k, the models of the three routines never
+   leave a buffer; HLLE only with the repaired counter — the old one leaves Yi at d = 3 on EVERY input *)
+Theorem C08_runs_in_range :
+  forall (F : Type) (Fo : FieldOps F) (N k d : nat) (L : list (list nat)),
+    k_of L = Some k -> table_ok N k L ->
+    (forall solve (kern : mat F) shift ts s i m, lle_run solve N L kern shift ts <> OOB s i m) /\
+    (d <= k -> forall (E : nat -> mat F) rsk shift,
+        ltsa_run N d L E rsk shift = Ok (ltsa_model N k d (nbrs_of L) E rsk shift)) /\
+    (d <= k -> forall fz (V : nat -> mat F) s i m, hlle_run_sf fz false N d L V <> OOB s i m) /\
+    (3 <= k -> forall fz (V : nat -> mat F), hlle_run_sf fz true N 3 L V = OOB site_hlle_col 12 10).
+Proof.
+  intros F Fo N k d L Hk Ht. split; [|split; [|split]].
+  - intros. apply (lle_run_in_range solve N k L); assumption.
+  - intros Hd E rsk shift. apply ltsa_run_in_range; assumption.
+  - intros Hd fz V s i m. apply (hlle_run_in_range fz N k d L V); assumption.
+  - intros Hd fz V. apply (hlle_run_shipped_oob fz N k L V); assumption.
+Qed.
+Print Assumptions C08_runs_in_range.
+
+Example C08_runs_in_range_nonvacuous :
+  k_of c08_nbr3 = Some 2 /\ table_ok 3 2 c08_nbr3.
+Proof.
+  split; [reflexivity|]. split; [cbn; lia|].
+  intros l Hl. cbn in Hl. destruct Hl as [<-|[<-|[<-|[]]]]; (split; [cbn; lia|]);
+    intros x Hx; cbn in Hx; destruct Hx as [<-|[<-|[]]]; lia.
+Qed.
+
 (* ---------------------------------------------------------------------- *)
 (* 4. selection of the eigenpairs (generated table) and the embedding      *)
 (* ---------------------------------------------------------------------- *)
@@ -403,15 +442,12 @@ Proof.
     + apply (embed_centred 4 2 1 c08_M4 c08_E4 c08_lam4 (qfrac 1 8)); assumption.
 Qed.
 
-(* "for samples on a d-flat every LTSA / HLLE column is an affine function of the intrinsic
-   coordinates": proved here is the assembly half — if every local matrix annihilates the
-   constant vector and the local coordinates, every affine function of the coordinates is an
-   eigenvector of the assembled matrix for its smallest eigenvalue (shift, resp. 0), so the
-   (d+1)-dimensional bottom eigenspace the solver returns consists of affine functions.
-   Not proved: that Eigen's top-d local eigenvectors span the centred local coordinates when
-   the neighbourhood is exactly d-flat (needs positive semidefiniteness / a rank argument);
-   the check measures it on the exact stream. *)
-Theorem C08_ltsa_affine_on_flat_partial :
+(* "For samples lying on a target_dimension-dimensional affine subspace every LTSA and HLLE column is
+   an affine function of the intrinsic coordinates."
+   (a) assembly (any field): if every local matrix annihilates the constant vector and the local
+       coordinates, every affine function of the coordinates is an eigenvector of the assembled matrix
+       for its smallest eigenvalue (shift, resp. 0) *)
+Theorem C08_ltsa_affine_null :
   forall (F : Type) (Fo : FieldOps F) (Ff : IsField F) (N k d : nat) (nbr : nat -> nat -> nat)
          (P : nat -> mat F) (shift : F) (X : mat F) (y : vec F) (r : nat),
     (forall i a, i < N -> a < k -> nbr i a < N) ->
@@ -421,9 +457,9 @@ Theorem C08_ltsa_affine_on_flat_partial :
     affine_in N d X y -> r < N ->
     mv N (ltsa_M_spec N k nbr P shift) y r = (shift * y r)%F.
 Proof. exact @ltsa_affine_null. Qed.
-Print Assumptions C08_ltsa_affine_on_flat_partial.
+Print Assumptions C08_ltsa_affine_null.
 
-Theorem C08_hlle_affine_on_flat_partial :
+Theorem C08_hlle_affine_null :
   forall (F : Type) (Fo : FieldOps F) (Ff : IsField F) (N k d : nat) (nbr : nat -> nat -> nat)
          (P : nat -> mat F) (X : mat F) (y : vec F) (r : nat),
     (forall i a, i < N -> a < k -> nbr i a < N) ->
@@ -433,4 +469,87 @@ Theorem C08_hlle_affine_on_flat_partial :
     affine_in N d X y -> r < N ->
     mv N (hlle_M_spec N k nbr P) y r = 0%F.
 Proof. exact @hlle_affine_null. Qed.
-Print Assumptions C08_hlle_affine_on_flat_partial.
+Print Assumptions C08_hlle_affine_null.
+
+(* (b) the local eigenproblem on an exactly flat neighbourhood (Qc; needs a formally real field):
+       B = Xc Xc^T, all but the d selected eigenvalues zero  ->  V V^T Xc = Xc *)
+Theorem C08_flat_projector :
+  forall (k d D : nat) (B E Xc : mat Qc) (lam : vec Qc) (a t : nat),
+    eig_contract k B E lam -> meq k k (mmul k E (mtrans E)) mI -> d <= k ->
+    (forall j, j < k - d -> lam j = 0%F) ->
+    meq k k B (mmul D Xc (mtrans Xc)) ->
+    a < k -> t < D ->
+    sumn k (fun b => (proj_of d (right_cols k d E) a b * Xc b t)%F) = Xc a t.
+Proof. exact flat_projector_Qc. Qed.
+Print Assumptions C08_flat_projector.
+
+(* (c) together, from the oracle contract of the local eigensolver alone (every neighbourhood
+       exactly d-flat): KLTSA *)
+Theorem C08_ltsa_affine_on_flat :
+  forall (N k d D : nat) (nbr : nat -> nat -> nat) (rsk shift : Qc)
+         (B E Xc : nat -> mat Qc) (lam m : nat -> vec Qc) (X : mat Qc) (y : vec Qc) (r : nat),
+    k <> 0 -> (rsk * rsk * of_nat k)%F = 1%F -> d <= k ->
+    (forall i a, i < N -> a < k -> nbr i a < N) ->
+    (forall i, i < N ->
+       eig_contract k (B i) (E i) (lam i) /\
+       meq k k (mmul k (E i) (mtrans (E i))) mI /\
+       (forall j, j < k - d -> lam i j = 0%F) /\
+       (forall c, c < d -> lam i (k - d + c) <> 0%F) /\
+       meq k k (B i) (mmul D (Xc i) (mtrans (Xc i))) /\
+       (forall b s, b < k -> s < D -> Xc i b s = (X (nbr i b) s - m i s)%F) /\
+       (forall s, s < D -> sumn k (fun b => Xc i b s) = 0%F)) ->
+    affine_in N D X y -> r < N ->
+    mv N (ltsa_M_spec N k nbr (fun i => ltsa_P d rsk (right_cols k d (E i))) shift) y r = (shift * y r)%F.
+Proof. exact ltsa_affine_on_flat_Qc. Qed.
+Print Assumptions C08_ltsa_affine_on_flat.
+
+(*     ... and HLLE (local matrix in the sqrt-free form, see C08_hlle_local_sqrt_free) *)
+Theorem C08_hlle_affine_on_flat :
+  forall (N k d D : nat) (nbr : nat -> nat -> nat)
+         (B E Xc prev : nat -> mat Qc) (lam m : nat -> vec Qc) (X : mat Qc) (y : vec Qc) (r : nat),
+    d <= k ->
+    (forall i a, i < N -> a < k -> nbr i a < N) ->
+    (forall i, i < N ->
+       eig_contract k (B i) (E i) (lam i) /\
+       meq k k (mmul k (E i) (mtrans (E i))) mI /\
+       (forall j, j < k - d -> lam i j = 0%F) /\
+       meq k k (B i) (mmul D (Xc i) (mtrans (Xc i))) /\
+       (forall b s, b < k -> s < D -> Xc i b s = (X (nbr i b) s - m i s)%F) /\
+       gs_nondegenerate (hlle_gs_sf false k d (prev i) (right_cols k d (E i)))) ->
+    affine_in N D X y -> r < N ->
+    mv N (hlle_M_spec N k nbr (fun i => hlle_local_sf false k d (prev i) (right_cols k d (E i)))) y r = 0%F.
+Proof. exact hlle_affine_on_flat_Qc. Qed.
+Print Assumptions C08_hlle_affine_on_flat.
+
+(* non-vacuity of (b), (c): four collinear samples with coordinate 1, -1, 7, -7, every sample's
+   neighbourhood = all four (k = 4, d = D = 1); rational orthonormal eigenvectors *)
+Definition c08_Ef : mat Qc :=
+  mof [[qfrac 1 2; qfrac 1 2; qfrac 7 10; qfrac 1 10];
+       [qfrac 1 2; qfrac 1 2; qfrac (-7) 10; qfrac (-1) 10];
+       [qfrac 1 2; qfrac (-1) 2; qfrac (-1) 10; qfrac 7 10];
+       [qfrac 1 2; qfrac (-1) 2; qfrac 1 10; qfrac (-7) 10]].
+Definition c08_lamf : vec Qc := vof [qz 0; qz 0; qz 0; qz 100].
+Definition c08_Bf : mat Qc := mmul 1 c08_V4 (mtrans c08_V4).
+
+Example C08_affine_on_flat_nonvacuous :
+  eig_contract 4 c08_Bf c08_Ef c08_lamf /\
+  meq 4 4 (mmul 4 c08_Ef (mtrans c08_Ef)) mI /\
+  (forall j, j < 4 - 1 -> c08_lamf j = 0%F) /\
+  (forall c, c < 1 -> c08_lamf (4 - 1 + c) <> 0%F) /\
+  meq 4 4 c08_Bf (mmul 1 c08_V4 (mtrans c08_V4)) /\
+  (forall b s, b < 4 -> s < 1 -> c08_V4 b s = (c08_V4 b s - 0)%F) /\
+  (forall s, s < 1 -> sumn 4 (fun b => c08_V4 b s) = 0%F) /\
+  gs_nondegenerate (hlle_gs_sf false 4 1 (fun _ _ => 0%F) (right_cols 4 1 c08_Ef)) /\
+  (qfrac 1 2 * qfrac 1 2 * of_nat 4)%F = 1%F.
+Proof.
+  split; [split; apply meq_by_compute; vm_compute; reflexivity|].
+  split; [apply meq_by_compute; vm_compute; reflexivity|].
+  split; [intros j Hj; destruct j as [|[|[|j]]]; try lia; reflexivity|].
+  split; [intros c Hc; destruct c as [|c]; try lia; intros K; apply (f_equal this) in K; vm_compute in K; discriminate|].
+  split; [apply meq_refl|].
+  split; [intros b s Hb Hs; destruct s as [|s]; try lia;
+          destruct b as [|[|[|[|b]]]]; try lia; apply Qc_is_canon; vm_compute; reflexivity|].
+  split; [intros s Hs; destruct s as [|s]; try lia; apply Qc_is_canon; vm_compute; reflexivity|].
+  split; [apply gs_nondegenerate_by_compute; vm_compute; reflexivity|].
+  apply Qc_is_canon. vm_compute. reflexivity.
+Qed.
